@@ -340,7 +340,7 @@ def async_case(args) -> Dict[str, Any]:
         E = join("E", 5, 42, b"eee", subs=(P.MT_CLIENT_INFO,))
         M.drain()
         S.drain()
-        w.kill_plan = (w.mgr_sends + k, [D], how)
+        w.kill_plan = (k, [D], how)  # k counts the manager's send calls of the coming round
         if trig == "tick":
             w.tick(5.2)
             w.step()
